@@ -723,12 +723,18 @@ func parseBinOps(expr string, n *promParser.BinaryExpr) (src []Source) {
 				}
 				if ls.AlwaysReturns && rs.AlwaysReturns && ls.KnownReturn && rs.KnownReturn {
 					// Both sides always return something
+					sideNumber := side.ReturnedNumber
 					side.ReturnedNumber, side.IsDead, side.IsDeadReason, side.IsDeadPosition = calculateStaticReturn(
 						expr,
 						ls, rs,
 						n.Op,
 						ls.IsDead,
 					)
+					if n.Op.IsComparisonOperator() && !n.ReturnBool {
+						// A comparison filters the vector side and keeps its values,
+						// which is not always the left hand side (2 > vector(1) returns 1).
+						side.ReturnedNumber = sideNumber
+					}
 				}
 				src = append(src, side)
 			}
